@@ -40,6 +40,8 @@ GRIDS = {
     "g3": dict(T_MIN=50.5, NT=2, DT=33.25, DT_SAMPLE=33.25, P_MIN=0, DELTA_P=0.1, DELTA_P_SAMPLE=1.0, NTV=41),
     "g4": dict(T_MIN=10, NT=9, DT=25, DT_SAMPLE=50, P_MIN=0, DELTA_P=1.0, DELTA_P_SAMPLE=4.0, NTV=21),     # sampling strides differ from
     "g5": dict(T_MIN=0, NT=7, DT=100, DT_SAMPLE=300, P_MIN=1, DELTA_P=0.5, DELTA_P_SAMPLE=0.5, NTV=25),   # the grid steps (not used by cij's writer)
+    "g6": dict(T_MIN=298.15, NT=4, DT=100, DT_SAMPLE=100, P_MIN=0, DELTA_P=2.0, DELTA_P_SAMPLE=2.0, NTV=21),  # fractional T_MIN with an integral step
+    "g7": dict(T_MIN=1273.15, NT=3, DT=250, DT_SAMPLE=250, P_MIN=0.25, DELTA_P=1.5, DELTA_P_SAMPLE=1.5, NTV=21),
 }
 SYSTEMS = {"9": "orthorhombic", "13": "monoclinic", "21": None}
 
@@ -216,6 +218,61 @@ def run_case(case):
     return {"viol": viol, "nontrivial": nfiles > 5, "outcome": f"ok/{nfiles}files" if not viol else viol[0]["sig"], "files": nfiles}
 
 
+def run_settings_route(case):
+    """every documented keyword and alias requested THROUGH THE SETTINGS FILE (output section), in the string form or
+    one of the mapping forms; Calculator(settings).write_output() must accept the section and leave every documented
+    file (named by the documented pattern, or by the fname override)"""
+    from cij.core.calculator import Calculator
+    form = case["form"]
+    viol = []
+    req = {"tp": [], "tv": []}
+    want = {}
+    for kw, (pat, unit, what, canon) in DOC.items():
+        if case.get("only") and canon != case["only"]:
+            continue
+        for base in ("tp", "tv"):
+            if (what == "volumes" and base != "tp") or (what == "pressures" and base != "tv"):
+                continue
+            if form == "string":
+                req[base].append(kw)
+            elif form == "mapping":
+                req[base].append({"keyword": kw})
+            elif form == "mapping+unit":
+                req[base].append({"keyword": kw, "unit": OVERRIDE_UNIT[unit][0]})
+            else:
+                if what in ("adiabatic", "isothermal"):
+                    req[base].append({"keyword": kw})
+                else:
+                    req[base].append({"keyword": kw, "fname": f"{kw}_{base}.out"})
+                    want[f"{kw}_{base}.out"] = kw
+                    continue
+            want[(pat, base, what)] = kw
+    spec = dict(nv=6, nq=2, na=1, lattice="power", system="orthorhombic", compset="minimal", static="generic", weights="increasing",
+                qha=dict(GRIDS["g0"]), output={"pressure_base": req["tp"], "volume_base": req["tv"]})
+    with K.scratch() as d:
+        synth.write(d, spec)
+        out = os.path.join(d, "out")
+        os.makedirs(out)
+        with K.chdir(out):
+            try:
+                c = Calculator(os.path.join(d, "settings.yaml"))
+                c.write_output()
+            except Exception as ex:
+                return {"viol": [V(f"c15:settings-route:raises:{type(ex).__name__}", f"output section in the {form} form listing every documented keyword and alias: {K.fmt_exc(ex)[:400]}")], "outcome": "raises"}
+            got = set(os.listdir("."))
+            keys = list(c.modulus_adiabatic.keys())
+            for w, kw in want.items():
+                if isinstance(w, str):
+                    names = [w]
+                else:
+                    pat, base, what = w
+                    names = [pat.format(ij="%d%d" % tuple(k.voigt), base=base) for k in keys] if what in ("adiabatic", "isothermal") else [pat.format(base=base)]
+                missing = [n for n in names if n not in got]
+                if missing:
+                    viol.append(V(f"c15:settings-route:file-missing:{form}", f"keyword {kw!r} requested in the settings file ({form} form): {missing[:3]} not written"))
+    return {"viol": viol, "nontrivial": True, "outcome": f"settings-route-ok/{len(got)}files" if not viol else viol[0]["sig"], "files": len(got)}
+
+
 SEQ_ALPHABET = ["bm_V", "B_V", {"keyword": "bm_V", "unit": "kbar", "fname": "bm_V_kbar.txt"}, {"keyword": "bulk_modulus_voigt", "fname": "copy_of_bm_V.txt"},
                 "cij", "cij_s", "cij_t", {"keyword": "cij", "unit": "kbar"}, "vs", {"keyword": "v_s", "unit": "m/s", "fname": "vs_m_s.txt"}]
 
@@ -290,10 +347,10 @@ def run_sequence(case):
 
 
 def explore(ctx):
-    ctx.rule = ("complete product: 6 grids (incl. T_MIN>0, fractional DT, P_MIN<0, DT_SAMPLE != DT, DELTA_P_SAMPLE != DELTA_P) x 3 component sets (9/13/21) x "
+    ctx.rule = ("complete product: 8 grids (incl. T_MIN>0, fractional DT, fractional T_MIN with integral DT, P_MIN<0, DT_SAMPLE != DT, DELTA_P_SAMPLE != DELTA_P) x 3 component sets (9/13/21) x "
                 "2 bases; for each: every keyword and alias of the writer rules (read at run time, expectations transcribed from the "
                 "documented table) written through ResultsWriter into its own directory and re-read by an independent parser; unit and "
-                "file-name overrides; write_output() with a mixed output section; all ordered sequences of <=2 (<=3 thorough) requests from a "
+                "file-name overrides; write_output() with a mixed output section; every documented keyword and alias requested through the settings file's output section in 4 forms (string, mapping, +unit, +fname) and rule by rule; all ordered sequences of <=2 (<=3 thorough) requests from a "
                 "10-letter alphabet (keywords, aliases, unit/file-name overrides of 3 rules) through ONE writer: every request leaves its file "
                 "with the content of the last request naming it, request objects unchanged, also after the same objects were first written on the other base; non-trivial = more than 5 files checked / sequence longer than 1")
     ctx.assumptions = ["expected names/units transcribed from docs/usage/output.rst as rendered from the pinned writer_rules.yml", "CODATA unit factors from scipy.constants",
@@ -301,6 +358,9 @@ def explore(ctx):
     cases = [{"grid": g, "ncomp": n, "base": b} for g in GRIDS for n in SYSTEMS for b in ("tp", "tv")]
     res = ctx.run(MOD, "run_case", cases, part="writer", chunksize=1)
     ctx.run_under(MOD, "run_case", cases[:2], ("-O",))
+    canons = sorted({v[3] for v in DOC.values()})
+    res += ctx.run(MOD, "run_settings_route", [{"form": f} for f in ("string", "mapping", "mapping+unit", "mapping+fname")] +
+                   [{"form": "string", "only": cn} for cn in canons], part="settings-route", chunksize=1)
     import itertools
     seqs = [list(sq) for L in ((1, 2) if ctx.quick else (1, 2, 3)) for sq in itertools.product(SEQ_ALPHABET, repeat=L)]
     both = [{"seq": sq, "base": b, "both_bases": True} for sq in seqs if len(sq) <= 2 and not any((r if isinstance(r, str) else r["keyword"]) in ("vs", "v_s") and False for r in sq)
